@@ -554,6 +554,11 @@ func (rs *runState) exec(task, step int, op core.Op) {
 			return
 		}
 		is, ok := x.record(addr, scope, account, name)
+		if !ok && x.prop == "C16" {
+			// recoveries reach indices beyond the range the harness resolves
+			// addresses in; which child an address is belongs to C03
+			return
+		}
 		if !ok {
 			info := ""
 			if ma, e := x.w.AddressInfo(addr); e == nil {
